@@ -178,11 +178,14 @@ h_unmtf(const uint8_t *used, size_t nused, const unsigned *syms, size_t nsyms,
     else
       put(&b, klen, 2 * nshort + (x - nshort));
   }
-  /* NEED() wants 32 more bits before each symbol: pad */
-  put(&b, 32, 0);
-  put(&b, 32, 0);
+  /* NEED() wants 32 more bits before each symbol, and the fast path of
+     retrieve() is taken only while at least 32 words of input remain: pad
+     with 40 zero words (never decoded: EOB, an error or the end of the last
+     group comes first), so that with chunk == 0 even a short symbol list runs
+     through the fast path; with a small chunk the slow path is used. */
   put(&b, 31, 0);
-  put(&b, 32, 0);
+  for (i = 0; i < 40; i++)
+    put(&b, 32, 0);
 
   /* exact-size copy so that reading past the end is an ASan error */
   exact = malloc(b.n * sizeof(uint32_t));
